@@ -222,6 +222,14 @@ pub fn exec(cmd: u64, t: &mut Toks) -> Result<String, Bad> {
             t.done()?;
             Ok(verif::encode_control(cap, kind, pid, rc))
         }
+        11 => {
+            let buf = t.bytes()?;
+            let ps = t.list(|t| t.prop())?;
+            let sel = t.n()? as u8;
+            t.done()?;
+            let props = props_vec(&ps)?;
+            Ok(verif::reply_render(&buf, &props, sel))
+        }
         _ => Err(Bad("cmd")),
     }
 }
